@@ -114,6 +114,26 @@ def rule_programs(ctx):
         ("static-init-order", "class Cfg { public static int base = 5; public static int twice = Cfg.base * 2; public constructor() -> Cfg = default; }\n"
                               "class Use { public static int v = Cfg.twice + 1; public constructor() -> Use = default; }\n"
                               "function main() -> void { echo(Use.v); echo(Cfg.twice); }\n"),
+        ("static-inherited-bare", "class Base { public static int seed = 41; public constructor() -> Base = default; }\n"
+                                  "class Derived extends Base { public static int next = seed + 1; public constructor() -> Derived { super(); return this; } }\n"
+                                  "function main() -> void { echo(Derived.next); echo(Base.seed); }\n"),
+        ("static-inherited-qualified", "class Base { public static int seed = 41; public constructor() -> Base = default; }\n"
+                                       "class Mid extends Base { public static int m = Base.seed + 1; public constructor() -> Mid { super(); return this; } }\n"
+                                       "class Leaf extends Mid { public static int l = m + seed; public constructor() -> Leaf { super(); return this; } }\n"
+                                       "function main() -> void { echo(Leaf.l); echo(Mid.m); }\n"),
+        ("generic-middle-base", "class D extends G<int> { public constructor() -> D { super(); return this; } }\n"
+                                "class G<T> extends B { public T t; public constructor() -> G<T> { super(); return this; } }\n"
+                                "class B { public int x = 5; public int y = 7; public constructor() -> B { return this; } }\n"
+                                "function main() -> void { D d = new D(); echo(d.y); echo(d.x); }\n"),
+        ("generic-two-middle-bases", "class D extends G<int> { public int own = 1; public constructor() -> D { super(); return this; } }\n"
+                                     "class G<T> extends H<T> { public T t; public constructor() -> G<T> { super(); return this; } }\n"
+                                     "class H<U> extends B { public int h = 9; public constructor() -> H<U> { super(); return this; } }\n"
+                                     "class B { public int x = 5; public int y = 7; public constructor() -> B { return this; } }\n"
+                                     "function main() -> void { D d = new D(); echo(d.y); echo(d.h); echo(d.own); }\n"),
+        ("type-parameter-named-like-a-class", "class Item { public int id; public constructor(int id) -> Item { this.id = id; return this; } }\n"
+                                              "class Crate<Item> { public Item held; public constructor(Item x) -> Crate<Item> { this.held = x; return this; } }\n"
+                                              "class Factory { public constructor() -> Factory = default; public function make(int k) -> Item { return new Item(k); } }\n"
+                                              "function main() -> void { Factory f = new Factory(); Item it = f.make(7); echo(it.id); Crate<string> c = new Crate<string>(\"label\"); echo(c.held); }\n"),
     ]
     return out + extra
 
